@@ -6,6 +6,7 @@ import (
 
 	"github.com/google/uuid"
 	"github.com/semafind/semadb/models"
+	"semaverif/fw"
 	"semaverif/gen"
 	"semaverif/model"
 	"semaverif/sx"
@@ -258,4 +259,95 @@ func closeF32(a, b float32) bool {
 	diff := math.Abs(float64(a) - float64(b))
 	scale := math.Max(math.Abs(float64(a)), math.Abs(float64(b)))
 	return diff <= scale*math.Ldexp(1, -22)+math.Ldexp(1, -140)
+}
+
+// trainWatch judges WHEN a learned quantiser (binary without a fixed threshold, product) becomes
+// trained. The store counts its items at the end of every write that touches the index and trains
+// once the count has reached the configured trigger; the count is a function of the committed
+// history (live points carrying the vector field, plus the entry node of a graph index), never of
+// how often a vector was rewritten or of which items happen to be cached. Two sound rules:
+//
+//	early: a trained quantiser is observed although no successful batch so far ended (or began) with
+//	       count + entry >= trigger;
+//	late:  a successful batch that touched the index left at least `trigger` vectors (insert), or
+//	       began and ended with at least that many (update / delete), and the quantiser is still
+//	       untrained.
+type trainWatch struct {
+	learned  bool
+	trigger  int
+	entry    int
+	upperMet bool
+	lowerMet bool
+	prop     string
+	dim      int
+}
+
+func newTrainWatch(prop string, sv models.IndexSchemaValue) *trainWatch {
+	dim, metric, q := gen.VectorParams(sv)
+	w := &trainWatch{prop: prop, dim: dim}
+	if sv.Type == models.IndexTypeVectorVamana {
+		w.entry = 1
+	}
+	if q == nil || metric == models.DistanceHamming || metric == models.DistanceJaccard {
+		return w
+	}
+	switch q.Type {
+	case models.QuantizerBinary:
+		if q.Binary != nil && q.Binary.Threshold == nil {
+			w.learned, w.trigger = true, q.Binary.TriggerThreshold
+		}
+	case models.QuantizerProduct:
+		if q.Product != nil {
+			w.learned, w.trigger = true, q.Product.TriggerThreshold
+		}
+	}
+	return w
+}
+
+func hasVec(d model.Doc, prop string, dim int) bool {
+	if d == nil {
+		return false
+	}
+	v, ok := model.AsVector(d, prop)
+	return ok && len(v) == dim
+}
+
+// step is called after every batch with the model before and after it.
+func (w *trainWatch) step(res *fw.CaseResult, tag string, before, after *model.Model, op gen.Op, succeeded, trained bool, step int) {
+	if !w.learned {
+		return
+	}
+	if succeeded {
+		nb, na := countWithVector(before, w.prop, w.dim), countWithVector(after, w.prop, w.dim)
+		touched := false
+		for _, p := range op.Points {
+			if hasVec(before.Docs[p.Id], w.prop, w.dim) || hasVec(after.Docs[p.Id], w.prop, w.dim) {
+				touched = true
+			}
+		}
+		for _, id := range op.Ids {
+			if hasVec(before.Docs[id], w.prop, w.dim) {
+				touched = true
+			}
+		}
+		if max(nb, na)+w.entry >= w.trigger {
+			w.upperMet = true
+		}
+		lower := min(nb, na)
+		if op.Kind == gen.OpInsert {
+			lower = na
+		}
+		if touched && lower >= w.trigger {
+			w.lowerMet = true
+		}
+		res.Stat("quantiser_training_observations", 1)
+	}
+	if trained && !w.upperMet {
+		res.Violate("quantiser-trained-early", tag+":trained-early", fmt.Sprintf("step %d: the quantiser of %q is trained (parameters persisted) although no successful batch so far began or ended with %d stored vectors (trigger threshold); the index now holds %d", step, w.prop, w.trigger, countWithVector(after, w.prop, w.dim)), nil)
+		w.upperMet = true // report once
+	}
+	if !trained && w.lowerMet {
+		res.Violate("quantiser-not-trained", tag+":trained-late", fmt.Sprintf("step %d: a successful batch touching %q left at least %d stored vectors (trigger threshold) but the quantiser is still untrained", step, w.prop, w.trigger), nil)
+		w.lowerMet = false
+	}
 }
